@@ -197,7 +197,11 @@ class C05(core.Property):
         "packet_loss = 0 and latency = None on every link (declared loss and latency distributions are outside the property's hypothesis; "
         "the coordinator calls latency.sample(), which LatencyDistribution does not have)",
         "wall-clock summary fields (speedup, efficiency, barrier overhead) are not compared",
-        "handlers in the correspondence runs are stateless scripts; stateful handlers are covered only by the theorems that quantify over arbitrary handler functions",
+        "handlers in the correspondence runs are stateless scripts; stateful handlers are covered only by the theorems that quantify over arbitrary handler functions "
+        "(par_eq_seq_tie_commutative, par_eq_seq_no_ties) and by fixes/C05-tie-order-sensitive-handlers.replay.py (one order-sensitive and one counting entity on the real code)",
+        "known finding (design-level, fixes/C05-tie-order-sensitive-handlers.known.md): for handlers that are order-sensitive inside one timestamp the main clause is false "
+        "of model and code alike (a cross-partition arrival at exactly the window end is delivered after a local event of the same timestamp that sequentially comes later); "
+        "not generated, not in corpus",
         "times < 100 s so that the coordinator's float min-latency check (delay_s < min_latency - 1e-12) is exact on the ns grid",
         "generator restriction F1 (reproduced defect of /repo, fixes/C05-min-latency-float-truncation.{diff,md}): declared latencies whose float seconds truncate to "
         "one nanosecond less (0.0157 s) are not generated unless HV_C05_LIFT=F1; on such a link /repo rejects a sender that uses the very float it declared",
@@ -214,15 +218,29 @@ class C05(core.Property):
         "valid_config_never_rejected: RespectsMin — every cross-partition emission of the handler goes over a declared link with a delay of at least its "
         "(effective, integer-nanosecond) minimum; initial heaps owned, outboxes empty; conclusion: the run never ends in RuntimeError",
         "par_eq_seq_partial: EventDetermined (emissions are a function of the delivered event) and Ranked (finite programs)",
+        "par_eq_seq_tie_commutative / par_eq_seq_no_ties / par_eq_seq_no_ties_observed: handler = liftP hE, hE : state of the target entity × event "
+        "(time, target, kind; no creation index) → new state × emissions (entity-local); same run hypotheses as par_eq_seq_partial (ParInit, all "
+        "partitions start from one state map, coordLoop returns err = none, sequential run Halted); no finiteness hypothesis (the induction is on "
+        "the sequential run's deliveries). TieCommutative: for all a, d with the same target and time and every state, delivering a then d and d then a "
+        "give the same state and the same emissions as a multiset. NoTies: the per-entity log (up to end_time) is strictly increasing in time",
     ]
     partial_theorems = {
         "HappyModel.C05.par_eq_seq_partial": (
-            "full statement is `def par_eq_seq_full` (entity-local *stateful* handlers). Proved: every handler whose emissions are a "
-            "function of the delivered event (time, target, kind) alone — state updates arbitrary — for all ties, partitionings, windows "
-            "≤ min latency, end times, on the executable coordinator loop. Gap: handlers whose emissions depend on entity state/history; "
-            "there a permutation inside one timestamp can change later emissions, so the clause needs either a no-shared-timestamp "
-            "hypothesis with a window-local commutation argument, or order-insensitive handlers. Left to the correspondence runs "
-            "(whose script handlers are stateless, i.e. inside the proved class)."),
+            "the statement it is partial for, `def par_eq_seq_full` (the main clause for EVERY entity-local stateful handler), is FALSE and "
+            "refuted in Lean: `par_eq_seq_full_false_for_order_sensitive_handlers` (two partitions, window = link latency; a local and a "
+            "cross-partition delivery reach one entity at the same timestamp in different orders in the two runs; an order-sensitive handler "
+            "then emits an event sequentially that never exists in the partitioned run; the real code behaves like the model: "
+            "fixes/C05-tie-order-sensitive-handlers.known.md). The true envelope is proved in full on the executable coordinator loop: "
+            "(1) par_eq_seq_partial — emissions a function of the delivered event, state updates arbitrary, all ties; "
+            "(2) par_eq_seq_tie_commutative — entity-local stateful handlers (emissions depend on the entity's state / history) that commute "
+            "on two deliveries to one entity at one timestamp: logs equal up to the order inside a timestamp, final entity states determined; "
+            "(3) par_eq_seq_no_ties — arbitrary (order-sensitive) entity-local stateful handlers when the SEQUENTIAL run delivers no two events "
+            "to one entity at one timestamp: logs EQUAL, final states determined (par_eq_seq_no_ties_observed: same from the partitioned run's logs; "
+            "seq_final_state: states equal to the sequential run's when it has no horizon overshoot). "
+            "Exact remaining gap: handlers that are order-sensitive inside a timestamp AND receive such ties (there the clause is false); "
+            "handlers that read another entity's state (not entity-local) or the event's creation index; (2) asks commutation for all "
+            "same-timestamp pairs of events, not only those that actually tie in the run (the core lemma `stateful_core` needs it only for pairs "
+            "delivered by the partitioned run). The correspondence runs still use stateless script entities (class (1))."),
     }
 
     # ------------------------------------------------------------------ generation
@@ -703,6 +721,15 @@ THEOREMS: list[str] = [
     "HappyModel.C05.seq_order",
     "HappyModel.C05.independent_eq_separate",
     "HappyModel.C05.par_eq_seq_partial",
+    "HappyModel.C05.par_eq_seq_full_false_for_order_sensitive_handlers",
+    "HappyModel.C05.tie_witness_logs",
+    "HappyModel.C05.confluence",
+    "HappyModel.C05.confluence_noties",
+    "HappyModel.C05.par_eq_seq_tie_commutative",
+    "HappyModel.C05.par_eq_seq_no_ties",
+    "HappyModel.C05.par_eq_seq_no_ties_observed",
+    "HappyModel.C05.seq_final_state",
+    "HappyModel.C05.countHandler_tieCommutative",
     "HappyModel.C05.no_time_travel_current_false",
     "HappyModel.C05.idle_skip_safe",
     "HappyModel.C05.idle_window_noop",
